@@ -42,7 +42,7 @@ class Probe:
         except subprocess.TimeoutExpired:
             return None, "HANG after %ds" % timeout
         text = r.stdout if driver == "binary" else r.stderr
-        if "panic:" in r.stderr or "internal error" in r.stderr:
+        if vlib.crashed(r.stderr):
             return None, "crash: " + r.stderr[-1200:]
         if driver == "binary" and r.returncode != 0:
             return None, "exit status %d: %s" % (r.returncode, r.stderr[-800:])
